@@ -236,8 +236,9 @@ class GLibEventLoop(EventLoop):
         self._glib_idle_enabled = True
 
     def _glib_idle_callback(self):
-        for callback in self._idle_callbacks.values():
-            callback()
+        for handle, callback in list(self._idle_callbacks.items()):
+            if handle in self._idle_callbacks:  # not removed by a previous idle callback
+                callback()
         self._glib_idle_enabled = False
         return False  # ask glib not to call again (or we would be called
 
